@@ -190,8 +190,8 @@ def check_curve_constants(build):
     if build == 'ark':
         C = r'^ark_curve::constants::'
         guard('ZETA', lambda: zeta_checks('ark_curve::constants::ZETA', val(get(C + 'ZETA$'))))
-        guard('TE COEFF_A', lambda: G.eq('TECurveConfig::COEFF_A = -1', val(get(r'^ark_curve::edwards::<impl at src/ark_curve/edwards.rs:2\d:[^>]*>::COEFF_A$')), a))
-        guard('TE COEFF_D', lambda: G.eq('TECurveConfig::COEFF_D = 3021', val(get(r'^ark_curve::edwards::<impl at src/ark_curve/edwards.rs:2\d:[^>]*>::COEFF_D$')), d))
+        guard('TE COEFF_A', lambda: G.eq('TECurveConfig::COEFF_A = -1', val(ev(I, mirsym.find_item_hdr(items, r'::COEFF_A$', r'TECurveConfig for'))), a))
+        guard('TE COEFF_D', lambda: G.eq('TECurveConfig::COEFF_D = 3021', val(ev(I, mirsym.find_item_hdr(items, r'::COEFF_D$', r'TECurveConfig for'))), d))
         def mont():
             its = [it for it in find_consts(items, r'^ark_curve::edwards::<impl at [^>]*>::COEFF_[AB]$') if 'MontCurveConfig' in it.impl_header()]
             mA = val(ev(I, [i for i in its if i.name.endswith('COEFF_A')][0])); mB = val(ev(I, [i for i in its if i.name.endswith('COEFF_B')][0]))
@@ -247,7 +247,7 @@ def check_curve_constants(build):
             g = get(r'^min_curve::element::<impl at [^>]*>::GENERATOR$')
             gx, gy, gz, gt = [val(x) for x in g.fields]
             gen_checks('Element::GENERATOR', gx, gy, gz, gt)
-            i_ = get(r'^min_curve::element::<impl at src/min_curve/element.rs:5\d:[^>]*>::IDENTITY$')
+            i_ = ev(I, [c for c in find_consts(items, r'^min_curve::element::<impl at [^>]*>::IDENTITY$') if 'Element' in (c.ret or '') and 'AffinePoint' not in c.impl_header()][0])
             ix, iy, iz, it_ = [val(x) for x in i_.fields]
             G.check('Element::IDENTITY = (0 : 1 : 1 : 0)', z3.And(z3.IntVal(ix) == 0, z3.IntVal(iy) == iz, z3.IntVal(iz) != 0, z3.IntVal(it_) == 0))
         guard('basepoint', basepoint)
